@@ -23,6 +23,13 @@ func genDescription(t *rapid.T) string {
 			lines = append(lines, rapid.SampledFrom([]string{"", "", "  ", "\t", " \t "}).Draw(t, fmt.Sprintf("desc.sep%d", i)))
 			continue
 		}
+		if i > 0 && rapid.IntRange(0, 11).Draw(t, fmt.Sprintf("desc.long%d", i)) == 0 {
+			// one very long line of the extended description (a generated list of something): around and beyond the
+			// 64 KiB default token limit of line-oriented readers
+			n := rapid.SampledFrom([]int{4000, 65530, 65536, 70000}).Draw(t, fmt.Sprintf("desc.longlen%d", i))
+			lines = append(lines, strings.TrimSpace(strings.Repeat("word ", n/5))+" end-of-long-line")
+			continue
+		}
 		lines = append(lines, rapid.SampledFrom(descLines).Draw(t, fmt.Sprintf("desc.line%d", i)))
 	}
 	s := strings.Join(lines, "\n")
@@ -66,6 +73,7 @@ func genFullMeta(t *rapid.T, c *BuildCase) {
 	m.EmbedPre = m.Prerelease != "" && rapid.IntRange(0, 2).Draw(t, "embedpre") == 0
 	m.EmbedMeta = m.VersionMetadata != "" && rapid.IntRange(0, 2).Draw(t, "embedmeta") == 0
 	m.VPrefix = rapid.IntRange(0, 4).Draw(t, "vprefix") == 0
+	m.PlainNumbers = rapid.Bool().Draw(t, "plain-numbers")
 	if rapid.Bool().Draw(t, "release?") {
 		m.Release = fmt.Sprint(rapid.IntRange(1, 12).Draw(t, "release"))
 	}
